@@ -585,6 +585,38 @@ static void arenas_init(void)
 	}
 }
 
+static uint8_t win_canary[CANARY_LEN];
+static uint8_t *win_out_ptr;
+static unsigned win_ctr;
+
+uint8_t *vh_in_window(const uint8_t *src, size_t n)
+{
+	arenas_init();
+	if (n > ARENA_MAX) n = ARENA_MAX;
+	uint8_t *ip = in_arena + ARENA_MAX - n;
+	if (n) memcpy(ip, src, n);
+	return ip;
+}
+
+uint8_t *vh_out_window(size_t n)
+{
+	arenas_init();
+	if (n > ARENA_MAX - CANARY_LEN) n = ARENA_MAX - CANARY_LEN;
+	uint8_t *op = out_arena + ARENA_MAX - n;
+	++win_ctr;
+	for (size_t i = 0; i < CANARY_LEN; ++i) win_canary[i] = (uint8_t)(0x3C ^ i ^ win_ctr);
+	memcpy(op - CANARY_LEN, win_canary, CANARY_LEN);
+	win_out_ptr = op;
+	return op;
+}
+
+bool vh_out_canary_ok(void)
+{
+	return win_out_ptr == NULL || memcmp(win_out_ptr - CANARY_LEN, win_canary, CANARY_LEN) == 0;
+}
+
+size_t vh_window_max(void) { return ARENA_MAX - CANARY_LEN; }
+
 double cpu_now(void)
 {
 	struct timespec ts;
